@@ -91,7 +91,7 @@ MCP = dict(sub="mcp", mode="mcp", family="mcp", shards=lambda tier: 3,
 
 
 def c20(prop, tier, res, replay=None):
-    return pure.check_cases(prop, tier, res, [MCP], [
+    return pure.check_cases(prop, tier, res, [MCP, OPFRONT], [
         "the gating tables are REGENERATED from internal/mcp/server.go (go/ast) and internal/mcp/spec.md on every run; the theorems are re-checked over them by lake build",
         "the real server is enumerated exhaustively through JSON-RPC framing: 31 tools + 3 unknown names x 3 roles x 2 x 2 flags x principal present/absent x 8 argument shapes (minimal, foreign path, symlink/.. path, unknown key, and four actors that differ from the principal: unrelated, case variant, prefix, superstring), plus tools/list per combination; process-control tools are only driven to their refusal paths (foreign pid_file) - what a successful start/stop does to the OS is not exercised"], replay)
 
